@@ -393,5 +393,7 @@ func ShortDocs() []corpus.Doc {
 		mk(MTFail, "fails in the middle"),
 		mk(MTEarly, "only the head of this document is read by its minifier, the rest is never consumed"),
 		mk("application/javascript", "var x = ;"),
+		// empty inputs: Close without any Write, Bytes(nil)
+		mk("text/html", ""), mk("text/css", ""), mk("application/javascript", ""), mk("application/json", ""), mk("image/svg+xml", ""), mk("text/xml", ""),
 	}
 }
